@@ -4,6 +4,7 @@
 import CorgiModel.Step
 import CorgiProofs.Matmul
 import CorgiSpec.Oracle
+import CorgiProofs.Composite
 
 set_option linter.unusedSectionVars false
 
@@ -70,6 +71,15 @@ theorem C15_activations (t : Tensor S) :
     relu t = mapT (fun x => if ScalarOps.pos x then x else zero) t ∧
     sigmoid t = mapT (fun x => ScalarOps.div one (one + ScalarOps.exp (-x))) t := ⟨rfl, rfl⟩
 
+
+/-- **The executed path** of the two costs: the `cost` command (and `Model::backward`) records the
+    nodes of `(target − output)² · 1/count` resp. `−target · ln output · 1/batch`; whenever it returns
+    a handle, the array it denotes is the tensor-level cost of `C15_mse` / `C15_xent`. -/
+theorem C15_costs_executed (σ σ' : State S) (o t r : Handle) :
+    (t.buf < σ.bufs.size → hMse σ o t = .ok (σ', r) → mse (σ.tensorOf o) (σ.tensorOf t) = .ok (σ'.tensorOf r)) ∧
+    (o.buf < σ.bufs.size → hXent σ o t = .ok (σ', r) → crossEntropy (σ.tensorOf o) (σ.tensorOf t) = .ok (σ'.tensorOf r)) :=
+  ⟨fun ht hok => (sound_hMse σ o t ht σ' r hok).1, fun ho hok => (sound_hXent σ o t ho σ' r hok).1⟩
+
 end Corgi
 
 #print axioms Corgi.C15_dense
@@ -79,3 +89,4 @@ end Corgi
 #print axioms Corgi.C15_mse_ring
 #print axioms Corgi.C15_dense_value
 #print axioms Corgi.C15_activations
+#print axioms Corgi.C15_costs_executed
